@@ -53,6 +53,7 @@ import (
 	"path/filepath"
 	"reflect"
 	"runtime"
+	"runtime/pprof"
 	"sort"
 	"strconv"
 	"strings"
@@ -734,6 +735,19 @@ func TestC20(t *testing.T) {
 func c20Info(f string, a ...any) { fmt.Printf("INFO "+f+"\n", a...) }
 
 func c20Worker(t *testing.T) {
+	if hp := os.Getenv("VERIF_C20_HEAPPROF"); hp != "" {
+		go func() {
+			for i := 0; ; i++ {
+				time.Sleep(40 * time.Second)
+				f, err := os.Create(fmt.Sprintf("%s.%d", hp, i))
+				if err == nil {
+					runtime.GC()
+					_ = pprof.WriteHeapProfile(f)
+					f.Close()
+				}
+			}
+		}()
+	}
 	run := evid.Start("C20", "model_checking")
 	if rp := os.Getenv("VERIF_REPLAY"); rp != "" {
 		os.Exit(c20Replay(t, run, rp))
